@@ -465,6 +465,22 @@ func init() {
 		},
 	})
 
+	// ---------------------------------------------------------------- C10 (translation validation)
+	register(&checkSpec{
+		ID:    "C10",
+		Level: "translation_validation",
+		Rule:  "programs = the 32 overload sets of harness/tv/c10/ovl.xgo: one-parameter sets {int, string, bool} as function literals and as named functions in all 6 orders each, two-parameter sets {(int,int), (int,string), (string,int), (string,string)} in 8 of the 24 orders, method sets {int, string, *foo} in all 6 orders, operator sets {(num,int), (num,num), (int,num)} in all 6 orders; compiled by the compiler of the current tree; every candidate returns its own tag combined with its arguments; inputs = the arguments as SMT variables; each call in the emitted Go must return the tag of the candidate whose parameter types accept the arguments",
+		Assumptions: []string{
+			"translation validation of the listed overload sets, not of every overload declaration; float64 candidates (untyped constant defaulting) are not covered",
+			"the inputs dimension is small here: the content of the check is the family of candidate orders and declaration styles",
+		},
+		Prepare: func(tier string) error { _, err := prepareTV("C10"); return err },
+		Extra:   func(tier string, ev map[string]any) []Violation { ev["programs"] = 32; return nil },
+		Harnesses: []harnessSpec{
+			{Name: "VxC10", ExtDir: tvDir("C10"), Quick: map[string]int{}, Variants: []map[string]int{{"FAM": 0}, {"FAM": 1}, {"FAM": 2}, {"FAM": 3}}, MaxSteps: 500_000},
+		},
+	})
+
 	// ---------------------------------------------------------------- C01 (translation validation)
 	register(&checkSpec{
 		ID:    "C01",
